@@ -44,12 +44,12 @@ type mutant struct {
 
 type mutCollector struct {
 	benign bool
-	prog *Program
-	pkg  *packages.Package
-	src  []byte
-	file string
-	fn   string
-	out  *[]*mutant
+	prog   *Program
+	pkg    *packages.Package
+	src    []byte
+	file   string
+	fn     string
+	out    *[]*mutant
 }
 
 func (m *mutCollector) add(kind string, start, end token.Pos, repl string) {
